@@ -351,10 +351,36 @@ func (g *seqGen) staleLoad() {
 	g.add("get %d", k)
 }
 
+// quietRefresh: an explicit refresh (failing, not-found or successful) of an entry some time after its last access, then a
+// look at the entry's deadlines: Refresh is not a read (C11: a failed reload leaves the entry and its expiry untouched; C12)
+func (g *seqGen) quietRefresh() {
+	k := g.key()
+	g.add("set %d %d", k, g.val())
+	d := g.ttl / int64(2+g.r.intn(3))
+	if d <= 0 {
+		d = 1
+	}
+	if g.clock <= math.MaxInt64-d-(1<<41) {
+		g.clock += d
+		g.add("adv %d", d)
+	}
+	oc := pick(g.r, []string{"err", "err", "nf", "ok"})
+	if g.r.chance(0.7) {
+		g.add("refresh %d %s:%d/%s:%d", k, oc, g.val(), oc, g.val())
+	} else {
+		g.add("bulkrefresh %d,%d %s/%s", k, g.key(), g.bulkOutcome([]int{k}), g.bulkOutcome([]int{k}))
+	}
+	g.add("qentry %d", k)
+}
+
 func (g *seqGen) loaderOp() {
 	r := g.r
 	if g.withExp && !g.avoidK1 && r.chance(0.12) {
 		g.staleLoad()
+		return
+	}
+	if g.withExp && g.withRef && !g.avoidK1 && r.chance(0.1) {
+		g.quietRefresh()
 		return
 	}
 	switch r.intn(10) {
@@ -454,7 +480,8 @@ func genSeqScript(seed uint64, profile string) []string {
 		}
 	}
 	expiry := "none"
-	if profile == "expiry" || profile == "huge" || profile == "persist" || r.chance(0.65) {
+	// (the persist profile saves and loads mostly expiring caches, but also refresh-only ones and ones without any time policy)
+	if profile == "expiry" || profile == "huge" || (profile == "persist" && r.chance(0.7)) || (profile != "persist" && r.chance(0.65)) {
 		g.withExp = true
 		expiry = pick(r, []string{"creating", "writing", "accessing", "custom"})
 		if expiry != "custom" {
